@@ -259,7 +259,7 @@ func classifyCrash(all string, err error) (viol, string) {
 		harnessFrame := false
 		libFn := ""
 		for _, f := range funcs {
-			if strings.HasPrefix(f, "verif/") && f != "verif/sim.(*Conn).Read" && f != "verif/sim.(*Conn).Write" {
+			if strings.HasPrefix(f, "verif/") && f != "verif/sim.(*Conn).Read" && f != "verif/sim.(*Conn).Write" && f != "verif/sim.(*Kernel).spawned" {
 				harnessFrame = true
 			}
 			if libFn == "" && !strings.HasPrefix(f, "panic") && !strings.HasPrefix(f, "runtime.") && !strings.HasPrefix(f, "verif/") {
@@ -299,7 +299,8 @@ func classifyRaces(stderr string) ([]viol, string) {
 			for _, f := range frameFuncs(body) {
 				// SimNet's Read/Write stand where the kernel's socket layer would: the
 				// buffer they touch belongs to the caller, so they count as library frames
-				if f == "verif/sim.(*Conn).Read" || f == "verif/sim.(*Conn).Write" {
+				// ... and the bottom frame of every program's main goroutine is the kernel's spawner
+				if f == "verif/sim.(*Conn).Read" || f == "verif/sim.(*Conn).Write" || f == "verif/sim.(*Kernel).spawned" {
 					continue
 				}
 				if strings.HasPrefix(f, "verif/") {
